@@ -72,7 +72,7 @@ pub(crate) fn add_months(days: i32, months: u32) -> Result<i32, AstrolabeError> 
 }
 
 pub(crate) fn add_days(old_days: i32, days: u32) -> Result<i32, AstrolabeError> {
-    old_days.checked_add(days as i32).ok_or_else(|| {
+    i32::try_from(old_days as i64 + days as i64).map_err(|_| {
         create_custom_oor(format!(
             "Instance would result into an overflow if {} days were added.",
             days,
@@ -128,7 +128,7 @@ pub(crate) fn sub_months(days: i32, months: u32) -> Result<i32, AstrolabeError> 
 }
 
 pub(crate) fn sub_days(old_days: i32, days: u32) -> Result<i32, AstrolabeError> {
-    old_days.checked_sub(days as i32).ok_or_else(|| {
+    i32::try_from(old_days as i64 - days as i64).map_err(|_| {
         create_custom_oor(format!(
             "Instance would result into an overflow if {} days were added.",
             days,
